@@ -350,6 +350,8 @@ pub fn gen_request(rng: &mut Rng, open: &BTreeMap<String, String>, kinds: &[ReqK
 struct Build {
     vs: Versions,
     specs: BTreeMap<String, TextSpec>,
+    /// every version ever produced per file key (for "restore an earlier text")
+    history: BTreeMap<String, Vec<TextSpec>>,
     disk: BTreeMap<String, FileState>,
     open: BTreeMap<String, String>,
     ops: Vec<Op>,
@@ -361,6 +363,7 @@ impl Build {
         Self {
             vs: Versions(0),
             specs: BTreeMap::new(),
+            history: BTreeMap::new(),
             disk: BTreeMap::new(),
             open: BTreeMap::new(),
             ops: Vec::new(),
@@ -406,18 +409,14 @@ pub fn gen_live(rng: &mut Rng, small_k: bool) -> Scenario {
             if b.open.contains_key(&path) {
                 continue;
             }
-            let spec = edit_text(rng, &mut b.vs, &b.specs[k].clone(), &includable(&keys, k), &cfg);
-            let text = spec.render();
-            b.specs.insert(k.to_string(), spec);
+            let text = next_spec(rng, &mut b, &keys, k, &cfg).render();
             b.open.insert(path.clone(), text.clone());
             b.ops.push(Op::Open { path, text });
         } else if roll < 40 {
             let paths: Vec<String> = b.open.keys().cloned().collect();
             let path = rng.pick(&paths).clone();
-            let k = path.trim_start_matches("/w/").trim_end_matches(".td").to_string();
-            let spec = edit_text(rng, &mut b.vs, &b.specs[&k].clone(), &includable(&keys, &k), &cfg);
-            let text = spec.render();
-            b.specs.insert(k, spec);
+            let k = key_of_path(&path);
+            let text = next_spec(rng, &mut b, &keys, &k, &cfg).render();
             b.open.insert(path.clone(), text.clone());
             b.ops.push(Op::Change { path, text });
         } else if roll < 80 {
@@ -432,15 +431,24 @@ pub fn gen_live(rng: &mut Rng, small_k: bool) -> Scenario {
         } else if roll < 90 {
             let paths: Vec<String> = b.open.keys().cloned().collect();
             let path = rng.pick(&paths).clone();
-            b.ops.push(if rng.chance(1, 2) { Op::Save { path } } else { Op::Close { path } });
+            if rng.chance(1, 2) {
+                b.ops.push(Op::Save { path });
+            } else {
+                // closed: a later Open of it is a re-open
+                b.open.remove(&path);
+                b.ops.push(Op::Close { path });
+            }
         } else {
             // disk event on any file, at any time
             let k = *rng.pick(&keys);
             let path = path_of_key(k);
             match rng.below(3) {
                 0 => {
-                    let spec = edit_text(rng, &mut b.vs, &b.specs[k].clone(), &includable(&keys, k), &cfg);
-                    b.ops.push(Op::DiskWrite { path, text: spec.render() });
+                    let saved = b.specs[k].clone();
+                    let text = next_spec(rng, &mut b, &keys, k, &cfg).render();
+                    // what is on disk is not what the editor holds
+                    b.specs.insert(k.to_string(), saved);
+                    b.ops.push(Op::DiskWrite { path, text });
                 }
                 1 => b.ops.push(Op::DiskRemove { path }),
                 _ => b.ops.push(Op::DiskUnreadable { path }),
@@ -458,15 +466,34 @@ fn key_of_path(path: &str) -> String {
     path.rsplit('/').next().unwrap_or(path).trim_end_matches(".td").to_string()
 }
 
+/// The next text of file `k`: usually an edited successor with a new unique marker, but an
+/// editor also re-sends the very same text (format-on-save, a no-op change) and goes back to
+/// an earlier text (undo, `git checkout`), so both are produced now and then.
+fn next_spec(rng: &mut Rng, b: &mut Build, keys: &[&str], k: &str, cfg: &GenCfg) -> TextSpec {
+    let prev = b.specs[k].clone();
+    let roll = rng.below(16);
+    let spec = if roll == 0 {
+        prev.clone() // byte-identical resend
+    } else if roll == 1 || roll == 2 {
+        match b.history.get(k) {
+            Some(h) if !h.is_empty() => rng.pick(h).clone(), // an earlier version, restored
+            _ => edit_text(rng, &mut b.vs, &prev, &includable(keys, k), cfg),
+        }
+    } else {
+        edit_text(rng, &mut b.vs, &prev, &includable(keys, k), cfg)
+    };
+    b.history.entry(k.to_string()).or_default().push(spec.clone());
+    b.specs.insert(k.to_string(), spec.clone());
+    spec
+}
+
 /// Emits a notification for document `k` with a new version of its text. `save`: the editor
 /// also writes the text to disk first (disk == editor).
 #[allow(clippy::too_many_arguments)]
-fn touch(rng: &mut Rng, b: &mut Build, keys: &[&str], k: &str, cfg: &GenCfg, save: bool, fresh: bool) {
-    let prev = b.specs[k].clone();
-    let spec = if fresh { TextSpec { version: b.vs.next(), ..prev } } else { edit_text(rng, &mut b.vs, &prev, &includable(keys, k), cfg) };
+fn touch(rng: &mut Rng, b: &mut Build, keys: &[&str], k: &str, cfg: &GenCfg, save: bool, _fresh: bool) {
+    let spec = next_spec(rng, b, keys, k, cfg);
     let text = spec.render();
     let path = path_of_key(k);
-    b.specs.insert(k.to_string(), spec);
     if save {
         b.disk.insert(path.clone(), FileState::Text(text.clone()));
         b.ops.push(Op::DiskWrite { path: path.clone(), text: text.clone() });
@@ -477,6 +504,14 @@ fn touch(rng: &mut Rng, b: &mut Build, keys: &[&str], k: &str, cfg: &GenCfg, sav
         b.ops.push(Op::Open { path: path.clone(), text: text.clone() });
     }
     b.open.insert(path, text);
+}
+
+/// The editor closes `k` (and may re-open it later: document versions restart at 1 then).
+fn close_doc(b: &mut Build, k: &str) {
+    let path = path_of_key(k);
+    if b.open.remove(&path).is_some() {
+        b.ops.push(Op::Close { path });
+    }
 }
 
 fn requests_burst(rng: &mut Rng, b: &mut Build, n: usize, kinds: &[ReqKind], only_paths: Option<&[String]>) {
@@ -572,8 +607,19 @@ pub fn gen_overlay(rng: &mut Rng, removed_variant: bool) -> Scenario {
     let n_steps = rng.range(2, 6);
     let probe_kinds = [ReqKind::DocumentSymbol, ReqKind::Definition, ReqKind::References, ReqKind::Hover, ReqKind::DocumentLink];
     for _ in 0..n_steps {
-        let roll = rng.below(10);
-        if roll < 8 || b.open.is_empty() {
+        let roll = rng.below(12);
+        if roll >= 10 && !b.open.is_empty() {
+            // close a document and, usually right away, open it again (versions restart)
+            let paths: Vec<String> = b.open.keys().cloned().collect();
+            let picked: String = rng.pick(&paths).clone();
+            let k = key_of_path(&picked);
+            close_doc(&mut b, &k);
+            if rng.chance(2, 3) {
+                touch(rng, &mut b, &keys, &k, &cfg, false, false);
+            }
+            let k2 = *rng.pick(&keys);
+            touch(rng, &mut b, &keys, k2, &cfg, false, false);
+        } else if roll < 8 || b.open.is_empty() {
             let k = *rng.pick(&keys);
             // no save: the buffer and the disk now differ (every version has its own marker)
             touch(rng, &mut b, &keys, k, &cfg, false, false);
@@ -659,27 +705,48 @@ pub fn gen_wire(rng: &mut Rng) -> Scenario {
     }
     let disk0 = b.disk.clone();
     let n_steps = rng.range(1, 4);
+    // burst variant: no quiescent points and no disk traffic at all, so a task of revision N
+    // is routinely still running when revision N+1 arrives (and no state is racy)
+    let burst = rng.chance(1, 2);
     let ascii_docs = vec![path_of_key("a")];
     let free_kinds = [ReqKind::DocumentSymbol, ReqKind::DocumentLink, ReqKind::FoldingRange];
     let pos_kinds = [ReqKind::Definition, ReqKind::References, ReqKind::Definition, ReqKind::References, ReqKind::InlayHint, ReqKind::DocumentSymbol, ReqKind::FoldingRange, ReqKind::DocumentLink];
     for step in 0..n_steps {
         let k = if step == 0 || rng.chance(2, 3) { "a" } else { *rng.pick(&keys) };
         let cfg = cfg_of(k);
-        touch(rng, &mut b, &keys, k, &cfg, true, false);
-        b.ops.push(Op::Sync);
-        let n = rng.range(3, 8);
+        touch(rng, &mut b, &keys, k, &cfg, !burst, false);
+        if !burst {
+            b.ops.push(Op::Sync);
+        }
+        let n = if burst { rng.range(1, 3) } else { rng.range(3, 8) };
         requests_burst(rng, &mut b, n, &pos_kinds, Some(&ascii_docs));
         let others: Vec<String> = b.open.keys().filter(|p| !ascii_docs.contains(p)).cloned().collect();
         if !others.is_empty() {
             let n = rng.range(1, 3);
             requests_burst(rng, &mut b, n, &free_kinds, Some(&others));
         }
-        b.ops.push(Op::Sync);
+        if burst {
+            // a second edit of the same document right behind, with a different line structure
+            if rng.chance(2, 3) {
+                let mut spec = b.specs[k].clone();
+                spec.version = b.vs.next();
+                spec.lead = (spec.lead + rng.range(1, 4)) % 7;
+                b.specs.insert(k.to_string(), spec.clone());
+                let text = spec.render();
+                let path = path_of_key(k);
+                b.open.insert(path.clone(), text.clone());
+                b.ops.push(Op::Change { path, text });
+            }
+        } else {
+            b.ops.push(Op::Sync);
+        }
     }
     let concurrency = count_requests(&b.ops) + 2;
     let mut knobs = sample_knobs(rng, concurrency, false);
-    knobs.strategy = Strategy::Sticky { den: 8 };
-    Scenario { profile: "wire".into(), knobs, disk0, ops: b.ops }
+    if !burst {
+        knobs.strategy = Strategy::Sticky { den: 8 };
+    }
+    Scenario { profile: if burst { "wire-burst".into() } else { "wire".into() }, knobs, disk0, ops: b.ops }
 }
 
 pub fn key_for(path: &str) -> String {
